@@ -5,6 +5,16 @@ HERE = os.path.dirname(os.path.dirname(os.path.abspath(__file__)))
 ids = [json.loads(l)["id"] for l in open(os.path.join(HERE, "properties.jsonl"))]
 
 CLAIMS = {
+ "C13": dict(
+   text="One contract per request handler of the software switch, request fields symbolic, `raises` empty: echo, barrier, "
+        "get/set config, features, queue config, vendor, hello, table/port/queue/aggregate/flow statistics, unknown statistics "
+        "type, unknown flow-mod command, port mod - each sends exactly one reply or the specified error carrying the request's "
+        "xid (or nothing where none is due), with the specified contents, and every reply's real pack() is evaluated in the "
+        "postcondition (it encodes and declares its own length); port-mod changes exactly the masked config bits, link state "
+        "follows PORT_DOWN, one port-status per link-state change.",
+   note="trusted: pyvc, z3; connection.send is a callee (C20). Reply ORDER over a request sequence follows from synchronous "
+        "handlers (argument, not a lemma). desc stats / flow stats over non-empty tables not under contract.",
+   ref="7/C13"),
  "C04": dict(
    text="Per-operation contracts = specification step: entry timeouts (no earlier than idle/hard timeout, traffic refreshes only "
         "the idle clock), flow-removed contents, and - for tables of 0..3 entries with every field/flag/clock symbolic and an "
